@@ -77,7 +77,9 @@ def do_import(wt, pid):
 
 def setup_mutenv():
     os.makedirs(MUT, exist_ok=True)
-    rc, out = sh('rsync -ai --delete --exclude target --exclude .git /repo/ %s/repo/' % MUT)
+    # the committed HEAD of /repo (not its working tree, which may be mid-edit), compared by content
+    sh('rm -rf %s/export && mkdir -p %s/export && git -C /repo archive HEAD | tar -x -C %s/export' % (MUT, MUT, MUT))
+    rc, out = sh('rsync -aic --delete --exclude target --exclude .git %s/export/ %s/repo/' % (MUT, MUT))
     # rsync -a restores the old mtime, which cargo takes for 'unchanged': touch whatever was put back
     for l in out.splitlines():
         parts = l.split(' ', 1)
